@@ -202,8 +202,8 @@ CLAIMS["C19"] = {
     "text": "Run-time part (Verus, all values / sizes / call orders the type-state permits, from any partial state): with_max_stack_size sets every stack's maximum and nothing else; "
             "with_<stack>_max_size sets exactly that stack's; with_<stack>_values / with_program put the supplied values on the named stack with the FIRST supplied on top (first "
             "program element executes first) or report Overflow when they do not fit; with_<stack>_input inserts name -> literal into the input map (a lemma shows declaration order "
-            "is irrelevant for distinct names); with_instruction_step_limit sets the limit; build returns exactly the assembled state. Compile-time part: nine illegal call sequences on PushState and four on the second state type "
-            "(build without sizes / program decision / step limit; values or program before sizes; resizing after values or after the program decision) are each rejected with E0599 on "
+            "is irrelevant for distinct names); with_instruction_step_limit sets the limit; build returns exactly the assembled state. Compile-time part: sixteen illegal call sequences on PushState and five on the second state type "
+            "(build without sizes / program decision / step limit; values or program before sizes; resizing after values or after the program decision — directly, globally, and with any other builder call in between; no other call supplying the step limit or the program decision) are each rejected with E0599 on "
             "the expected method, and the legal orders type-check. Kani: the compiled builder on the real PushState (sizes for all usize, value loading, generated accessors address "
             "the field of their element type).",
     "note": "Trusted: the std iterator stand-ins inside push_many (ExactSizeIterator::len, Vec::extend(iter.rev()), Option::is_none_or; push_many's own body is proved, 10_stack.vrs), "
